@@ -18,6 +18,10 @@ def addAt (arr : Array (List String)) (i : Nat) (tags : List String) : Array (Li
   let arr := if arr.size ≤ i then arr ++ Array.replicate (i + 1 - arr.size) [] else arr
   arr.modify i (fun l => (l ++ tags).eraseDups)
 
+/-- the other live objects (still bound to a program variable) -/
+def otherLive (ps : PState) (self : Nat) : List Dense :=
+  (ps.vars.toList.filterMap (fun v => v)).eraseDups.filterMap (fun j => if j == self then none else ps.ds[j]?)
+
 /-- Excl tags raised by a step (evaluated on M's state *before* the step), with the scope they
     taint: the object only, or also its whole buffer (storage damage). -/
 def exclTags (ps : PState) (toks : List String) : List String × Bool :=
@@ -31,9 +35,10 @@ def exclTags (ps : PState) (toks : List String) : List String × Bool :=
     | _, _ => ([], false)
   | ["T", v, axes] =>
     match ps.obj v, parseIntList axes with
-    | some (_, t), some ax =>
+    | some (id, t), some ax =>
       let mat := T_materialises t ax
-      ((if mat && Excl_transposeView t then ["F5"] else []) ++
+      ((if mat && Excl_transposeShared (otherLive ps id) t then ["F39"] else []) ++
+       (if mat && Excl_transposeView t then ["F5"] else []) ++
        (if mat && Excl_transposeCol t then ["F6"] else []) ++
        (if Excl_shortStrides t then ["F24"] else []) ++
        (if Excl_vectorT t ax then ["F28"] else []), mat)
@@ -44,8 +49,10 @@ def exclTags (ps : PState) (toks : List String) : List String × Bool :=
     | _, _ => ([], false)
   | ["transpose", v] =>
     match ps.obj v with
-    | some (_, t) =>
-      ((if Excl_transposeView t then ["F5"] else []) ++ (if Excl_transposeCol t then ["F6"] else []), true)
+    | some (id, t) =>
+      ((if Excl_transposeView t then ["F5"] else []) ++ (if Excl_transposeCol t then ["F6"] else []) ++
+       (if Excl_transposeVectorStrides t then ["F28"] else []) ++
+       (if Excl_transposeShared (otherLive ps id) t then ["F39"] else []), true)
     | _ => ([], false)
   | ["iter", v, _] =>
     match ps.obj v with
@@ -99,8 +106,10 @@ def exclTags (ps : PState) (toks : List String) : List String × Bool :=
     | _, _ => ([], false)
   | ["reshape", v, _] =>
     match ps.obj v with
-    | some (_, t) =>
-      ((if Excl_reshapeLongWindow t then ["F16"] else []) ++
+    | some (id, t) =>
+      ((if Excl_transposeShared (otherLive ps id) t then ["F39"] else []) ++
+       (if Excl_transposeVectorStrides t then ["F28"] else []) ++
+       (if Excl_reshapeLongWindow t then ["F16"] else []) ++
        (if Excl_transposeView t then ["F5"] else []) ++ (if Excl_transposeCol t then ["F6"] else []) ++
        (if Excl_shortStrides t then ["F24"] else []), true)
     | _ => ([], false)
